@@ -628,6 +628,25 @@ def apply_keychan(kc, outlines, items, frames_meta, taplog):
     if kc.get("upper"):
         text_lines = [" ".join([p[0]] + [x.upper() for x in p[1:]]) if len(p) == 3 else l
                       for l, p in ((l, l.split(" ")) for l in text_lines)]
+    if kc.get("straddle") and text_lines:
+        # a long key log (a browser session of hours): unrelated lines in front, sized so that one line of the capture's
+        # connections lies across a power-of-two byte offset (readers that work block-wise must not tear it)
+        R = Rng(kc["straddle"], "straddle")
+        j = R.below(len(text_lines))
+        block = R.choice([65536, 65536, 65536, 8192, 4096, 131072])
+        before = sum(len(l) + len(nl) for l in text_lines[:j])
+        k = R.range(1, max(1, len(text_lines[j]) - 1))
+        need = block - k - before
+        while need < 0:
+            need += block
+        filler = []
+        while need > 400:
+            l = "CLIENT_RANDOM %s %s" % (R.bytes(32).hex(), R.bytes(48).hex())
+            filler.append(l)
+            need -= len(l) + len(nl)
+        if need >= len(nl) + 1:
+            filler.append("#" + "f" * (need - 1 - len(nl)))
+        text_lines = filler + text_lines
     final_nl = "" if kc.get("no_final_nl") else nl
     text = (nl.join(text_lines) + (final_nl if text_lines else "")).encode()
     if mode == "file":
@@ -636,6 +655,20 @@ def apply_keychan(kc, outlines, items, frames_meta, taplog):
         # the key-log file holds only part of the lines (the DSBs hold all of them)
         keep = [l for i, l in enumerate(text_lines) if (i % kc["file_part"]) == 0]
         text = (nl.join(keep) + (final_nl if keep else "")).encode()
+    if kc.get("dsb_per_conn"):
+        # merged captures (mergecap of per-host captures with embedded secrets): one secrets block per connection,
+        # directly in front of that connection's first captured packet
+        first = {}
+        for j, i in enumerate(frames_meta):
+            first.setdefault(taplog[i]["conn"], j)
+        groups = {}
+        for (_, cid, l) in outlines:
+            groups.setdefault(cid, []).append(l)
+        new = list(items)
+        for cid, pos in sorted(first.items(), key=lambda x: -x[1]):
+            if cid in groups:
+                new.insert(pos, ("dsb", (nl.join(groups[cid]) + nl).encode()))
+        return (None if mode == "dsb" else text), new
     # DSB placement: kc["dsb"] = list of [position in items (0 = before all packets), share index] ;
     # lines are dealt to the shares round-robin unless kc["split"] gives explicit counts
     places = kc.get("dsb", [[0, 0]])
